@@ -132,23 +132,40 @@ func describeText(rs []rune) string {
 }
 
 // ---------------------------------------------------------------- reassembly
-// gsmJoinOK: the decoded pieces reproduce text, where a piece may have lost one
-// trailing CR if, counting that CR, its septet count is a multiple of 8 (C08).
-func gsmJoinOK(text []rune, pieces [][]rune) bool {
+// gsmJoin: do the decoded pieces reproduce text, where a piece may have lost (or gained) one
+// trailing CR if, counting the segment's own CR, its septet count is a multiple of 8 (C08)?
+// rooms[i] > 0 additionally demands that segment i (a non-last part of a fixed-width text) is
+// maximal: one more septet would not fit rooms[i] octets.  Returns whether a consistent reading exists.
+func gsmJoin(text []rune, pieces [][]rune, rooms []int) bool {
+	full := func(i int, seg []rune) bool {
+		if rooms == nil || i >= len(rooms) || rooms[i] <= 0 {
+			return true
+		}
+		s, ok := stdTextSeptets(seg)
+		return ok && (7*(len(s)+1)+7)/8 > rooms[i]
+	}
 	var rec func(pos, i int) bool
 	rec = func(pos, i int) bool {
 		if i == len(pieces) {
 			return pos == len(text)
 		}
 		d := pieces[i]
+		// the piece GAINED a CR: the segment had 8k septets and ended in CR, the encoder sent the second CR
+		if n := len(d); n >= 2 && d[n-1] == '\r' && d[n-2] == '\r' && pos+n-1 <= len(text) && eqRunes(text[pos:pos+n-1], d[:n-1]) {
+			if s, ok := stdTextSeptets(d[:n-1]); ok && len(s)%8 == 0 && full(i, d[:n-1]) && rec(pos+n-1, i+1) {
+				return true
+			}
+		}
 		if pos+len(d) > len(text) || !eqRunes(text[pos:pos+len(d)], d) {
 			return false
 		}
-		if rec(pos+len(d), i+1) {
+		if full(i, d) && rec(pos+len(d), i+1) {
 			return true
 		}
+		// the piece LOST a CR
 		if pos+len(d) < len(text) && text[pos+len(d)] == '\r' {
-			if s, ok := stdTextSeptets(append(append([]rune{}, d...), '\r')); ok && len(s)%8 == 0 {
+			seg := append(append([]rune{}, d...), '\r')
+			if s, ok := stdTextSeptets(seg); ok && len(s)%8 == 0 && full(i, seg) {
 				return rec(pos+len(d)+1, i+1)
 			}
 		}
@@ -230,7 +247,7 @@ func (c *c07) compose(cd *c07Coding, rs []rune, ref uint16, bucket string) {
 		if decodeOK {
 			ok := eqRunes(joined, rs)
 			if !ok && cd.gsm {
-				ok = gsmJoinOK(rs, pieces)
+				ok = gsmJoin(rs, pieces, nil)
 			}
 			if !ok {
 				r.Fail("lossless/"+cd.name+"-text-changed", "decoded payloads joined in order differ from the text", in,
@@ -238,21 +255,24 @@ func (c *c07) compose(cd *c07Coding, rs []rune, ref uint16, bucket string) {
 			}
 		}
 		// maximality for fixed-width texts: no part but the last could hold one more character
-		if unit := c.fixedUnit(cd, rs); unit > 0 && n > 1 {
-			for i := 0; i < n-1; i++ {
-				p := parts[i]
-				room := 140 - p.UDHeader.Len()
-				var fits bool
-				if cd.gsm {
-					np := len(pieces[i]) // septets = characters for default-table texts
-					fits = (7*(np+1)+7)/8 <= room
-				} else {
-					fits = len(p.Message)+unit/8 <= room
+		if unit := c.fixedUnit(cd, rs); unit > 0 && n > 1 && decodeOK {
+			if cd.gsm {
+				rooms := make([]int, n)
+				for i := 0; i < n-1; i++ {
+					rooms[i] = 140 - parts[i].UDHeader.Len()
 				}
-				if fits {
+				if gsmJoin(rs, pieces, nil) && !gsmJoin(rs, pieces, rooms) {
 					r.Fail("maximal/"+cd.name+"-part-has-room", "a part other than the last could have held one more character", in,
-						fmt.Sprintf("part %d/%d: header %d + payload %d octets, reference %d", i+1, n, p.UDHeader.Len(), len(p.Message), ref), "full")
-					break
+						fmt.Sprintf("%d parts, header %d octets, payloads %d.. octets, reference %d", n, parts[0].UDHeader.Len(), len(parts[0].Message), ref), "full")
+				}
+			} else {
+				for i := 0; i < n-1; i++ {
+					p := parts[i]
+					if len(p.Message)+unit/8 <= 140-p.UDHeader.Len() {
+						r.Fail("maximal/"+cd.name+"-part-has-room", "a part other than the last could have held one more character", in,
+							fmt.Sprintf("part %d/%d: header %d + payload %d octets, reference %d", i+1, n, p.UDHeader.Len(), len(p.Message), ref), "full")
+						break
+					}
 				}
 			}
 		}
@@ -438,6 +458,17 @@ func corrC07(r *Run) {
 		c.compose(cd, rept(b, 200), 1, "corpus")
 		c.compose(cd, rept(b, 70), 1, "corpus")
 		c.compose(cd, nil, 7, "empty text")
+		if cd.gsm {
+			// a full 152-septet part (16-bit reference) ending in CR: the C08-ambiguous case at the size limit
+			for _, ref := range []uint16{256, 255} {
+				t := append(rept('a', 151), '\r')
+				t = append(t, rept('a', 160)...)
+				c.compose(cd, t, ref, "corpus")
+				t2 := append(rept('a', 150), 0x20AC) // extension character completing the part
+				t2 = append(t2, rept('b', 160)...)
+				c.compose(cd, t2, ref, "corpus")
+			}
+		}
 		// ---- around the single-part limit
 		for _, n := range []int{139, 140, 141} {
 			k := n / unitA
@@ -471,13 +502,15 @@ func corrC07(r *Run) {
 						c.compose(cd, t, ref, "wide character at the part boundary")
 					}
 				}
-				t := append(rept(a, 2*per+off), b)
-				t = append(t, rept(a, 9)...)
-				c.compose(cd, t, ref, "wide character at the second boundary")
+				if !r.Quick || ref == 255 || ref == 256 {
+					t := append(rept(a, 2*per+off), b)
+					t = append(t, rept(a, 9)...)
+					c.compose(cd, t, ref, "wide character at the second boundary")
+				}
 			}
 		}
 		// ---- all-wide, alternating, random mixtures
-		nm := r.N(10, 60)
+		nm := r.N(8, 60)
 		for i := 0; i < nm; i++ {
 			ln := 100 + r.Rng.Intn(500)
 			t := make([]rune, ln)
@@ -515,7 +548,7 @@ func corrC07(r *Run) {
 			c.compose(cd, []rune{a, 0x1F600}, 3, "foreign character")
 		}
 		// ---- exactly 254 parts, one character more, and far beyond
-		long := !r.Quick || cd.name == "gsm7" || cd.name == "latin1" || cd.name == "ucs2" || cd.name == "shiftjis"
+		long := !r.Quick || cd.name == "gsm7" || cd.name == "latin1" || cd.name == "ucs2"
 		for k, ref := range []uint16{256, 255} {
 			if !long {
 				break
